@@ -83,6 +83,7 @@ def run_property(pid, tier, repo, seed):
             with multiprocessing.get_context('fork').Pool(min(len(tasks), os.cpu_count() or 4)) as pool:
                 results = pool.map(run_task, tasks, chunksize=1)
         for insts, stats, assumptions, samples in results:
+            stats = dict(stats)
             ctx.instances.extend(insts)
             for k, v in stats.items():
                 if isinstance(v, set):
@@ -152,6 +153,7 @@ def run_property(pid, tier, repo, seed):
             'obligations': ctx.stats['obligations'],
             'discharged': ctx.stats['discharged'],
             'functions_analysed': sorted(ctx.stats['functions_analysed']),
+            'functions_interpreted': sorted(ctx.stats.get('executed', set())),
             'paths_explored': ctx.stats['paths'],
             'loops_with_inferred_invariants': ctx.stats['loops'],
             'configs': ['dev(overflow-checks,debug-assertions)', 'rel(neither)'],
